@@ -1,5 +1,6 @@
 (* C19, text layer: round trips through the supported layouts
    (parse_X (render_X style r) = Ok (record of r) for every well-formed r). *)
+From Coq Require Import String Ascii.
 From Coq Require Import List NArith ZArith QArith Qcanon Bool Lia.
 From ACB Require Import Base.Outcome Base.QcExtra Base.Fit Base.Arith Model.QText Model.Etrade
   Model.EtradeText Spec.EtradeLayoutChunks Spec.EtradeLayout Proofs.EtradeTextFrame.
@@ -591,4 +592,223 @@ Proof.
   unfold render_rsu, rsu_doc, rsu_tail, decseg, dateseg, date_text.
   cbn [rl_sym rl_date rl_award rl_released rl_sold rl_issued rl_fmv rl_sale rl_fee app flat seg_text].
   norm_apps. rewrite app_nil_r. reflexivity.
+Qed.
+
+(* ------------------------------------------------------------------ post-2023 trade confirmation *)
+Lemma first_some_app {A B} (f : A -> option B) l1 l2 :
+  first_some f (l1 ++ l2) = match first_some f l1 with Some y => Some y | None => first_some f l2 end.
+Proof. induction l1 as [|x l1 IH]; [reflexivity|]. cbn [app first_some]. destruct (f x); [reflexivity|exact IH]. Qed.
+
+(* the last position of the current line at which f matches *)
+Lemma line_sufs_cons {B} (f : text -> option B) c r :
+  (c =? 10) = false -> first_some f (line_sufs r) = None -> first_some f (line_sufs (c :: r)) = f (c :: r).
+Proof.
+  intros Hc Hn. cbn [line_sufs]. rewrite Hc, first_some_app, Hn. cbn [first_some]. destruct (f (c :: r)); reflexivity.
+Qed.
+Lemma line_sufs_app_some {B} (f : text -> option B) p s y :
+  forallb not_nl p = true -> first_some f (line_sufs s) = Some y -> first_some f (line_sufs (p ++ s)) = Some y.
+Proof.
+  intros Hp Hs. induction p as [|c p IH]; [exact Hs|].
+  cbn [forallb] in Hp. apply andb_true_iff in Hp. destruct Hp as [Hc Hp]. unfold not_nl in Hc. apply negb_true_iff in Hc.
+  cbn [app line_sufs]. rewrite Hc, first_some_app, (IH Hp). reflexivity.
+Qed.
+Lemma find_last_none_all {B} (f : text -> option B) : forall s, find_last f s = None -> f s = None.
+Proof. intros s H. destruct s as [|c s]; [exact H|]. cbn [find_last] in H. destruct (find_last f s); [discriminate|exact H]. Qed.
+Lemma find_last_none_tail {B} (f : text -> option B) c s : find_last f (c :: s) = None -> find_last f s = None.
+Proof. cbn [find_last]. destruct (find_last f s); [discriminate|reflexivity]. Qed.
+Lemma line_sufs_none {B} (f : text -> option B) : forall s, find_last f s = None -> first_some f (line_sufs s) = None.
+Proof.
+  induction s as [|c s IH]; intros H.
+  - cbn. cbn in H. rewrite H. reflexivity.
+  - cbn [line_sufs]. destruct (c =? 10).
+    + cbn [first_some]. rewrite (find_last_none_all f _ H). reflexivity.
+    + rewrite first_some_app, (IH (find_last_none_tail f c s H)). cbn [first_some].
+      rewrite (find_last_none_all f _ H). reflexivity.
+Qed.
+
+(* the candidates of a greedy `.*` on a line whose rest is v ++ "\n" ++ R: the whole v first *)
+Lemma prefixes_line_last v R : forallb not_nl v = true -> forall acc,
+  exists l, prefixes_line acc (v ++ 10 :: R) = l ++ [(rev v ++ acc, 10 :: R)].
+Proof.
+  induction v as [|c v IH]; intros Hv acc.
+  - exists []. reflexivity.
+  - cbn [forallb] in Hv. apply andb_true_iff in Hv. destruct Hv as [Hc Hv]. unfold not_nl in Hc. apply negb_true_iff in Hc.
+    destruct (IH Hv (c :: acc)) as [l El]. exists ((acc, (c :: v) ++ 10 :: R) :: l).
+    cbn [app prefixes_line]. rewrite Hc. cbn [app] in El. rewrite El. cbn [rev]. rewrite <- app_assoc. reflexivity.
+Qed.
+Lemma rev_prefixes_first v R : forallb not_nl v = true ->
+  exists l, rev (prefixes_line [] (v ++ 10 :: R)) = (rev v, 10 :: R) :: l.
+Proof.
+  intros Hv. destruct (prefixes_line_last v R Hv []) as [l El]. rewrite El, rev_app_distr, app_nil_r.
+  eexists. reflexivity.
+Qed.
+
+Lemma sp1_sp X : sp1 (32 :: X) = Some (skip_spaces X).
+Proof. reflexivity. Qed.
+Lemma sp1_nl X : sp1 (10 :: X) = Some (skip_spaces X).
+Proof. reflexivity. Qed.
+
+(* classes *)
+Lemma acct_nonspace c : is_acct c = true -> nonspace c = true.
+Proof.
+  unfold is_acct, nonspace. intros H. apply negb_true_iff.
+  repeat (apply orb_true_iff in H; destruct H as [H|H]).
+  - apply digit_nonspace; exact H.
+  - unfold is_upper in H. range_tac. unfold is_space.
+    repeat match goal with |- (_ || _) = false => apply orb_false_iff; split end;
+    try (apply N.eqb_neq; lia); apply andb_false_iff; first [left; apply N.leb_gt; lia | right; apply N.leb_gt; lia].
+  - unfold is_lower in H. range_tac. unfold is_space.
+    repeat match goal with |- (_ || _) = false => apply orb_false_iff; split end;
+    try (apply N.eqb_neq; lia); apply andb_false_iff; first [left; apply N.leb_gt; lia | right; apply N.leb_gt; lia].
+  - apply N.eqb_eq in H. subst c. reflexivity.
+Qed.
+Lemma updot_nonspace c : is_updot c = true -> nonspace c = true.
+Proof.
+  unfold is_updot, nonspace. intros H. apply negb_true_iff. apply orb_true_iff in H. destruct H as [H|H].
+  - unfold is_upper in H. range_tac. unfold is_space.
+    repeat match goal with |- (_ || _) = false => apply orb_false_iff; split end;
+    try (apply N.eqb_neq; lia); apply andb_false_iff; first [left; apply N.leb_gt; lia | right; apply N.leb_gt; lia].
+  - unfold is_dot in H. apply N.eqb_eq in H. subst c. reflexivity.
+Qed.
+Lemma forallb_imp {A} (p q : A -> bool) l : (forall x, p x = true -> q x = true) -> forallb p l = true -> forallb q l = true.
+Proof. intros H Hl. rewrite forallb_forall in *. auto. Qed.
+
+Lemma skip_nonspace_fld v X : v <> [] -> forallb nonspace v = true -> skip_spaces (v ++ X) = v ++ X.
+Proof.
+  intros Hn Hv. destruct v as [|c v]; [congruence|]. cbn [forallb] in Hv. apply andb_true_iff in Hv. destruct Hv as [Hc _].
+  cbn [app skip_spaces]. unfold nonspace in Hc. apply negb_true_iff in Hc. rewrite Hc. reflexivity.
+Qed.
+Lemma skip_sp_nonspace_fld v X : v <> [] -> forallb nonspace v = true -> skip_spaces (32 :: v ++ X) = v ++ X.
+Proof. intros. change (skip_spaces (32 :: v ++ X)) with (skip_spaces (v ++ X)). apply skip_nonspace_fld; assumption. Qed.
+
+Ltac trunc3 :=
+  idtac; match goal with
+  | |- context [flat (?s1 :: ?s2 :: ?s3 :: ?R)] =>
+      change (flat (s1 :: s2 :: s3 :: R)) with (seg_text s1 ++ seg_text s2 ++ seg_text s3 ++ flat R);
+      generalize (flat R); intro
+  end.
+Lemma g_tc_account : guarded m_tc_account (glit k_Account).
+Proof. exact (guarded_lit _ _). Qed.
+Lemma g_post : guarded m_post (glit k_Trade).
+Proof.
+  intros s H. unfold m_post. cbn [lits_sp1]. unfold lit at 1. rewrite prefix_sat_glit in H. unfold starts_with in H.
+  destruct (strip_prefix k_Trade s); [discriminate|reflexivity].
+Qed.
+Lemma g_isin : guarded m_isin (glit k_ISIN_c).
+Proof. exact (guarded_lit _ _). Qed.
+Lemma g_commission : guarded m_commission (glit k_Commission).
+Proof. exact (guarded_lit _ _). Qed.
+Lemma g_tx_fee : guarded m_tx_fee (glit k_Transaction).
+Proof.
+  intros s H. unfold m_tx_fee. cbn [lits_sp1]. unfold lit at 1. rewrite prefix_sat_glit in H. unfold starts_with in H.
+  destruct (strip_prefix k_Transaction s); [discriminate|reflexivity].
+Qed.
+
+Definition post_hdr : text := Eval vm_compute in
+  txt "Trade Date Settlement Date Quantity Price Settlement Amount
+"%string.
+Definition post_isin_pre : text := Eval vm_compute in txt "Symbol / CUSIP / "%string.
+Definition post_sin : text := Eval vm_compute in txt "SIN: "%string.
+Definition post_desc_tail : text := Eval vm_compute in txt " SYSTEMS INC"%string.
+
+Lemma post_hdr_eval X :
+  lits_sp1 [k_Trade; k_Date; k_Settlement; k_Date; k_Quantity; k_Price; k_Settlement; k_Amount] (post_hdr ++ X)
+  = Some (skip_spaces X).
+Proof. reflexivity. Qed.
+Lemma post_type_eval X :
+  (r <~~ sp1 (post0_5 ++ X);; r <~~ lit k_Transaction r;; r <~~ sp1 r;; lit k_Type_c r) = Some (32 :: X).
+Proof. reflexivity. Qed.
+
+Lemma typec_not_nl c : is_typec c = true -> not_nl c = true.
+Proof.
+  unfold not_nl. intros H. apply negb_true_iff. apply N.eqb_neq. intros ->. discriminate.
+Qed.
+Lemma updot_not_nl c : is_updot c = true -> not_nl c = true.
+Proof.
+  unfold not_nl. intros H. apply negb_true_iff. apply N.eqb_neq. intros ->. discriminate.
+Qed.
+
+Lemma m_isin_hit sym R : sym <> [] -> forallb nonspace sym = true ->
+  m_isin (k_ISIN_c ++ 32 :: sym ++ 32 :: R) = Some (sym, 32 :: R).
+Proof.
+  intros Hn Hs. unfold m_isin, lit. rewrite strip_prefix_app. cbn [obind].
+  rewrite skip_sp_nonspace_fld by assumption. apply run1_all; [assumption|assumption|reflexivity].
+Qed.
+
+Definition comm_of (REST : text) : option text * text :=
+  match find_last m_commission REST with Some (v, r') => (Some v, r') | None => (None, REST) end.
+Definition fee_of (rest1 : text) : option text :=
+  match find_last m_tx_fee rest1 with Some (v, _) => Some v | None => None end.
+
+(* the post-2023 pattern on the supported layout, from the table header on *)
+Lemma m_post_eval m1 d1 y1 m2 d2 y2 qty pa pb ty sym REST :
+  digits m1 -> digits d1 -> digits y1 -> m1 <> [] -> d1 <> [] -> y1 <> [] ->
+  digits m2 -> digits d2 -> digits y2 -> m2 <> [] -> d2 <> [] -> y2 <> [] ->
+  digits qty -> qty <> [] -> decparts pa pb ->
+  forallb is_typec ty = true -> (2 <= length ty)%nat -> hd_in nonspace ty = true -> hd_in nonspace (rev ty) = true ->
+  sym <> [] -> forallb is_updot sym = true ->
+  find_last m_isin (post_sin ++ sym ++ 32 :: REST) = None ->
+  m_post (post_hdr ++ m1 ++ 47 :: d1 ++ 47 :: y1 ++ 32 :: m2 ++ 47 :: d2 ++ 47 :: y2 ++ 32 :: qty ++ 32 :: pa ++ 46 :: pb
+          ++ post0_5 ++ ty ++ post0_6 ++ sym ++ post0_7 ++ sym ++ 32 :: REST)
+  = Some {| cp_td := (m1, d1, y1); cp_sd := (m2, d2, y2); cp_sym := sym; cp_act := ty; cp_n := qty;
+            cp_price := pa ++ 46 :: pb; cp_comm := fst (comm_of (32 :: REST));
+            cp_fee := fee_of (snd (comm_of (32 :: REST))) |}.
+Proof.
+  intros M1 D1 Y1 NM1 ND1 NY1 M2 D2 Y2 NM2 ND2 NY2 Q NQ HP TY LTY HTY1 HTY2 NS US HI.
+  dsplit HP.
+  assert (SN : forallb nonspace sym = true) by (apply (forallb_imp is_updot); [exact updot_nonspace|exact US]).
+  unfold m_post. rewrite post_hdr_eval. cbn [obind].
+  rewrite skip_digits by assumption. rewrite date3_hit by (auto; reflexivity). cbn [obind].
+  rewrite sp1_sp. cbn [obind]. rewrite skip_digits by assumption. rewrite date3_hit by (auto; reflexivity). cbn [obind].
+  rewrite sp1_sp. cbn [obind]. rewrite skip_digits by assumption. rewrite nd_run1 by (auto; reflexivity). cbn [obind].
+  rewrite sp1_sp. cbn [obind]. rewrite skip_digits by assumption.
+  replace (pa ++ 46 :: pb ++ post0_5 ++ ty ++ post0_6 ++ sym ++ post0_7 ++ sym ++ 32 :: REST)
+    with (pa ++ 46 :: pb ++ (post0_5 ++ ty ++ post0_6 ++ sym ++ post0_7 ++ sym ++ 32 :: REST)) by reflexivity.
+  rewrite dd_hit by (auto; reflexivity). cbn [obind].
+  (* Transaction Type: *)
+  match goal with |- context [sp1 (post0_5 ++ ?X)] => pose proof (post_type_eval X) as E end.
+  destruct (sp1 (post0_5 ++ ty ++ post0_6 ++ sym ++ post0_7 ++ sym ++ 32 :: REST)) as [r0|] eqn:E0; [|discriminate E].
+  cbn [obind] in E |- *. destruct (lit k_Transaction r0) as [r1|]; [|discriminate E].
+  cbn [obind] in E |- *. destruct (sp1 r1) as [r2|]; [|discriminate E].
+  cbn [obind] in E |- *. rewrite E. cbn [obind].
+  (* the action *)
+  destruct ty as [|t0 ty']; [cbn in LTY; lia|]. cbn [hd_in] in HTY1.
+  assert (Et0 : is_space t0 = false) by (unfold nonspace in HTY1; apply negb_true_iff; exact HTY1).
+  change (skip_spaces (32 :: (t0 :: ty') ++ post0_6 ++ sym ++ post0_7 ++ sym ++ 32 :: REST))
+    with (skip_spaces ((t0 :: ty') ++ post0_6 ++ sym ++ post0_7 ++ sym ++ 32 :: REST)).
+  cbn [app skip_spaces]. rewrite Et0.
+  assert (Eact : m_act ((t0 :: ty') ++ post0_6 ++ sym ++ post0_7 ++ sym ++ 32 :: REST)
+                 = Some (t0 :: ty', (sym, 32 :: REST))).
+  { unfold m_act. cbn [app]. rewrite Et0.
+    change (t0 :: ty' ++ post0_6 ++ sym ++ post0_7 ++ sym ++ 32 :: REST)
+      with ((t0 :: ty') ++ 10 :: (tl post0_6 ++ sym ++ post0_7 ++ sym ++ 32 :: REST)).
+    destruct (rev_prefixes_first (t0 :: ty') (tl post0_6 ++ sym ++ post0_7 ++ sym ++ 32 :: REST)) as [l El].
+    { apply (forallb_imp is_typec); [exact typec_not_nl|exact TY]. }
+    rewrite El. cbn [first_some fst snd].
+    destruct (rev (t0 :: ty')) as [|e [|e2 rt]] eqn:Er.
+    - apply (f_equal (@length N)) in Er. rewrite rev_length in Er. cbn in Er. lia.
+    - apply (f_equal (@length N)) in Er. rewrite rev_length in Er. cbn in Er, LTY. lia.
+    - cbn [hd_in] in HTY2. unfold nonspace in HTY2. apply negb_true_iff in HTY2. rewrite HTY2.
+      assert (Ea : after_act (10 :: tl post0_6 ++ sym ++ post0_7 ++ sym ++ 32 :: REST) = Some (sym, 32 :: REST)).
+      { unfold after_act.
+        change (skip_spaces (10 :: tl post0_6 ++ sym ++ post0_7 ++ sym ++ 32 :: REST))
+          with (k_Description ++ 58 :: 32 :: sym ++ post0_7 ++ sym ++ 32 :: REST).
+        unfold lit. rewrite strip_prefix_app. cbn [obind].
+        unfold to_nl.
+        replace (58 :: 32 :: sym ++ post0_7 ++ sym ++ 32 :: REST)
+          with ((([58; 32] ++ sym) ++ post_desc_tail) ++ 10 :: post_isin_pre ++ k_ISIN_c ++ 32 :: sym ++ 32 :: REST)
+          by (rewrite <- !app_assoc; reflexivity).
+        rewrite (span_all not_nl (([58; 32] ++ sym) ++ post_desc_tail)).
+        2:{ rewrite !forallb_app. rewrite (forallb_imp is_updot not_nl sym updot_not_nl US). reflexivity. }
+        2:{ reflexivity. }
+        cbn [snd obind].
+        apply line_sufs_app_some; [reflexivity|].
+        change (k_ISIN_c ++ 32 :: sym ++ 32 :: REST) with (73 :: post_sin ++ sym ++ 32 :: REST).
+        rewrite line_sufs_cons; [|reflexivity|apply line_sufs_none; exact HI].
+        exact (m_isin_hit sym REST NS SN). }
+      rewrite Ea. rewrite <- Er, rev_involutive. reflexivity. }
+  cbn [app] in Eact. rewrite Eact. cbn [obind].
+  unfold comm_of, fee_of.
+  destruct (find_last m_commission (32 :: REST)) as [[v r']|]; cbn [fst snd];
+    destruct (find_last m_tx_fee _) as [[v2 r2']|]; reflexivity.
 Qed.
